@@ -777,6 +777,41 @@ func runShared(c *Ctx) {
 			}
 			c.R.Add("SHARED-C", fname+"|escaping-closure", fname, p.Pos(f.Pos()), assigns == 0,
 				"a closure that outlives its creator (option value, generated function body) never assigns its captured variables", fmt.Sprintf("%d assignments to captured variables", assigns))
+			// … and never installs a captured map or slice into memory it was handed: the container would be shared by every
+			// application of the option (every call, every goroutine), and the per-call writes into that memory would land in it
+			adopted := ""
+			core.Instrs(f, func(in ssa.Instruction) {
+				var val, dst ssa.Value
+				switch x := in.(type) {
+				case *ssa.MapUpdate:
+					val, dst = x.Value, x.Map
+				case *ssa.Store:
+					val, dst = x.Val, x.Addr
+				default:
+					return
+				}
+				if _, local := dst.(*ssa.Alloc); local {
+					return
+				}
+				switch val.Type().Underlying().(type) {
+				case *types.Map, *types.Slice:
+				default:
+					return
+				}
+				ld, ok := core.Strip(val).(*ssa.UnOp)
+				if !ok || ld.Op != token.MUL {
+					return
+				}
+				if _, isFree := ld.X.(*ssa.FreeVar); !isFree {
+					return
+				}
+				if p.FreshIn(dst) {
+					return
+				}
+				adopted = fmt.Sprintf("captured %s %s is installed into %s at %s", core.TypeStr(val.Type()), core.Path(val), core.Path(dst), p.InstrPos(in))
+			})
+			c.R.Add("SHARED-C", fname+"|no-captured-container-installed", fname, p.Pos(f.Pos()), adopted == "",
+				"a closure that outlives its creator never installs a captured map or slice into the per-call memory it is handed (only copies of it or its elements)", ternary(adopted == "", "none", adopted))
 		}
 	}
 	c.R.Note("SHARED", "writes not needing an obligation: %v", counts)
